@@ -60,7 +60,7 @@ Proof.
   unfold collector_timeout. destruct (aget N.eqb c (collectors w)) as [co|]; [|apply fx_refl].
   eapply fx_trans; [|apply fx_send_sd]. constructor; reflexivity.
 Qed.
-Lemma fx_subscribe_eventgroup g ep w : fx w (subscribe_eventgroup g ep w). Proof. unfold subscribe_eventgroup. fx_go. Qed.
+Lemma fx_subscribe_eventgroup g ep w : fx w (subscribe_eventgroup g ep w). Proof. unfold subscribe_eventgroup, subscribe_core, note_dup. destruct (requested _ _ _); fx_go. Qed.
 Lemma fx_stop_subscribe_eventgroup g ep b w : fx w (stop_subscribe_eventgroup g ep b w). Proof. unfold stop_subscribe_eventgroup. fx_go. Qed.
 
 (* ------------------------------------------------------------------ same5 and the n5_ lemmas *)
